@@ -109,6 +109,9 @@ type enc struct {
 	callBinds   map[string]bool // cells bound to the closure being called
 	lockLoops   []lockLoop
 	retVals     []string
+	siteAt      ssa.Instruction
+	callResults map[string]cval
+	callResultTypes map[string]types.Type
 	retTypes    []types.Type
 	lockStates  []hstate        // heap right after each lock acquisition (for atlock())
 	countKeys   map[string]bool // callee keys counted for ncalls()
